@@ -50,3 +50,9 @@ func (d *Dealer) VerifEncryptDeal(i int, deal *Deal, raw []byte, signer kyber.Sc
 		Cipher:    encrypted,
 	}, nil
 }
+
+// VerifSecretCommits is a verification hook (build tag "verif" only): the
+// commitments to the dealer's secret polynomial, which Commits() only returns
+// once the dealer considers its own deal certified. A simulated malicious
+// participant needs them to publish its secret commitments regardless.
+func (d *Dealer) VerifSecretCommits() []kyber.Point { return d.secretCommits }
